@@ -220,7 +220,7 @@ func nistGroupAdapter(g group.Group, ref *curves.WCurve) *adapter {
 	ad.mkW = func(p curves.WPoint) pt {
 		e := g.NewElement()
 		if err := e.UnmarshalBinary(sec1(ref, p)); err != nil {
-			panic(fmt.Sprintf("SELFTEST-FAIL %s: cannot decode reference point: %v", ad.name, err))
+			panic(fmt.Sprintf("SELFTEST-FAIL %s: circl misbehaved outside C13 (decoding, C09): Element.UnmarshalBinary refused the uncompressed SEC1 encoding of a reference point of the prime-order group: %v", ad.name, err))
 		}
 		return e
 	}
@@ -229,7 +229,7 @@ func nistGroupAdapter(g group.Group, ref *curves.WCurve) *adapter {
 	ad.mk = func(a *big.Int) pt {
 		e := g.NewElement()
 		if err := e.UnmarshalBinary(sec1(ref, ref.MulG(a))); err != nil {
-			panic(fmt.Sprintf("SELFTEST-FAIL %s: cannot decode reference point: %v", ad.name, err))
+			panic(fmt.Sprintf("SELFTEST-FAIL %s: circl misbehaved outside C13 (decoding, C09): Element.UnmarshalBinary refused the uncompressed SEC1 encoding of a reference point of the prime-order group: %v", ad.name, err))
 		}
 		return e
 	}
